@@ -5,7 +5,7 @@ import copy
 import io
 
 from .. import coqbuild, irtools as T
-from ..common import GLOBAL_TRUSTED_BASE
+from ..common import CORPUS_SEED, GLOBAL_TRUSTED_BASE
 from ..model import call_many
 from ..pool import guarded, run_cases
 
@@ -23,19 +23,22 @@ def fmt_tag(fmt, cfg):
     return "function%s%s" % ("" if cfg.get("type_annotations", True) else "-nota", "" if cfg.get("kwonly", True) else "-pos")
 
 
-def case_items(ir):
-    """All formats x styles x emit_default_doc on one IR -> (items, n_hops, n_clean)."""
-    items, hops, clean = [], 0, 0
+def case_items(ir, cid=None):
+    """All formats x styles x emit_default_doc on one IR -> (items, n_hops, n_clean, corpus keys)."""
+    items, hops, clean, keys = [], 0, 0, []
     for fmt, cfg in FORMATS:
         for style in STYLES:
             for edd in (False, True):
                 cf = dict(cfg, docstring_format=style, emit_default_doc=edd)
                 tag = "%s/%s" % (fmt_tag(fmt, cfg), style)
+                ckey = None if cid is None else "%s|%s|%d" % (cid, tag, edd)
+                if ckey:
+                    keys.append(ckey)
                 hops += 1
                 try:
                     out, src = T.hop(fmt, ir, cf)
                 except Exception as e:  # noqa
-                    items.append(("C02/%s/raises/%s" % (tag, type(e).__name__), {"config": cf, "error": str(e)[:120]}))
+                    items.append(("C02/%s/raises/%s" % (tag, type(e).__name__), {"config": cf, "error": str(e)[:120], "corpus_key": ckey}))
                     continue
                 try:
                     again = ast.parse(src)
@@ -43,7 +46,7 @@ def case_items(ir):
                 except Exception as e:  # noqa
                     ok = False
                 if not ok:
-                    items.append(("C02/%s/unparse-reparse" % tag, {"config": cf, "source": src[:300]}))
+                    items.append(("C02/%s/unparse-reparse" % tag, {"config": cf, "source": src[:300], "corpus_key": ckey}))
                 its = T.compare(ir, out, norm=fmt if fmt in ("function", "argparse") else None, edd=edd)
                 if not its:
                     clean += 1
@@ -53,8 +56,8 @@ def case_items(ir):
                     if cls.startswith("param/") and (ir["params"].get(det.get("param")) or {}).get("doc") in T.TRIGGER_DOCS:
                         aspect = "default" if cls.startswith("param/default") else "doc" if cls.startswith("param/doc") else "typ"
                         cls = "param/prose-with-type-words/%s" % aspect
-                    items.append(("C02/%s/%s" % (tag, cls), dict(det, config=cf)))
-    return items, hops, clean
+                    items.append(("C02/%s/%s" % (tag, cls), dict(det, config=cf, corpus_key=ckey)))
+    return items, hops, clean, keys
 
 
 def sig_case(rng):
@@ -253,17 +256,20 @@ def fn_compare(cases):
 
 
 def worker(batch):
-    out = {"n": 0, "hops": 0, "clean": 0, "items": [], "sig_bad": [], "sigs": 0, "classes": 0, "cls_bad": []}
+    out = {"n": 0, "hops": 0, "clean": 0, "items": [], "sig_bad": [], "sigs": 0, "classes": 0, "cls_bad": [], "corpus_keys": []}
     for kind, payload in batch:
-        if kind == "ir":
-            st, v = guarded(case_items, payload, 120)
+        if kind in ("ir", "corpus"):
+            st, v = guarded((lambda p_: case_items(p_[0], p_[1])) if kind == "corpus" else case_items, payload, 120)
             out["n"] += 1
             if st != "ok":
                 out["items"].append(("C02/harness/" + st, {"detail": v}, payload))
                 continue
-            items, hops, clean = v
+            items, hops, clean, keys = v
             out["hops"] += hops
             out["clean"] += clean
+            out["corpus_keys"] += keys
+            if kind == "corpus":
+                payload = payload[0]
             for cls, det in items:
                 out["items"].append((cls, det, payload))
     clss = [p for k, p in batch if k == "cls"]
@@ -313,7 +319,10 @@ def worker(batch):
 
 def collect(ctx, n_ir, n_sig):
     rng = ctx.rng
-    work = [("ir", T.gen_ir(rng, "sig", docs="plain" if i % 5 else "trigger")) for i in range(n_ir)] + [("cls", cls_case(rng)) for _ in range(n_sig)] + \
+    import random as _random
+    crng = _random.Random(CORPUS_SEED)
+    corpus = [("corpus", (T.gen_ir(crng, "sig", docs="plain" if i % 5 else "trigger"), "c%d" % i)) for i in range(200)]
+    work = corpus[: (12 if n_ir < 200 else 200)] + [("ir", T.gen_ir(rng, "sig", docs="plain" if i % 5 else "trigger")) for i in range(n_ir)] + [("cls", cls_case(rng)) for _ in range(n_sig)] + \
         [("sig", sig_case(rng)) for _ in range(n_sig)]
     batches = [work[i:i + 6] for i in range(0, len(work), 6)]
     agg = {"n": 0, "hops": 0, "clean": 0, "sigs": 0, "classes": 0}
@@ -322,8 +331,9 @@ def collect(ctx, n_ir, n_sig):
         if "harness_error" in r:
             items.append(("C02/harness/error", {"detail": r}, None))
             continue
-        for k in agg:
+        for k in ("n", "hops", "clean", "sigs", "classes"):
             agg[k] += r[k]
+        agg.setdefault("corpus_keys", []).extend(r.get("corpus_keys", []))
         items += r["items"]
         sig_bad += r["sig_bad"]
         cls_bad += r["cls_bad"]
@@ -335,7 +345,7 @@ def run(ctx):
     agg, items, sig_bad, work, cls_bad = collect(ctx, 40 if ctx.quick else 1800, 300 if ctx.quick else 15000)
     for cls, det, ir in items:
         ctx.item(cls, {"stage": "emit -> source -> parse on the implementation", "clause": cls.split("/", 3)[-1],
-                       "input": T.jsonable(ir) if ir else None, "detail": det})
+                       "input": T.jsonable(ir) if ir else None, "detail": det}, corpus_key=det.get("corpus_key") if isinstance(det, dict) else None)
     if not ctx.violations:
         if sig_bad:
             ctx.violation({"stage": "correspondence: Model/FuncSig.v parse_pairs vs cdd.function.parse.function", "detail": sig_bad[:3]},
@@ -361,7 +371,8 @@ def run(ctx):
         "signatures_compared_with_model": agg["sigs"], "signature_disagreements": len(sig_bad),
         "classes_compared_with_model": agg["classes"], "class_disagreements": len(cls_bad),
         "traces_validated_against_impl": agg["sigs"],
-        "samples": [T.jsonable(work[0][1]), work[-1][1]],
+        "corpus_configurations_run": len(agg.get("corpus_keys", [])),
+        "samples": [T.jsonable(work[-1][1]) if not isinstance(work[-1][1], tuple) else None, work[-1][1] if isinstance(work[-1][1], dict) else None],
         "build": {k: status[k] for k in ("build_s", "forbidden")},
     }
     return ctx.finish("proof", cov, assumptions=["per-format type/docstring normalisations are observed, not proved"])
